@@ -1,4 +1,5 @@
 import CacheProofs.Props.C09
+import CacheProofs.Props.C09F
 open Cache
 #print axioms C09_read_never_foreign
 #print axioms C09_delete_never_foreign
@@ -6,3 +7,6 @@ open Cache
 #print axioms C09_write_frame
 #print axioms C09_step_provenance
 #print axioms C09_values_have_provenance
+#print axioms C09_failover_locks_by_key
+#print axioms C09_key_never_changes
+#print axioms C09_failure_cache_by_key
